@@ -71,6 +71,7 @@ type Case struct {
 	Clients []ClientProg `json:"clients"`
 	Crash   *CrashPlan   `json:"crash,omitempty"`
 	Final   bool         `json:"final"` // drain + read every key at the end (after all clients finished)
+	Reopen  bool         `json:"reopen,omitempty"` // instead: Close with pending flushes, reopen at once, read every key
 }
 
 // CrashPlan selects crash images of a recording run to recover.
@@ -339,3 +340,5 @@ func restartGap(r *Rng) int64 {
 		return int64(86400*3) * 1000000000
 	}
 }
+
+func newRng(seed uint64) Rng { return simrt.NewSplitMix(seed) }
